@@ -40,6 +40,7 @@ def cases(ctx):
     n = 2000 if ctx.tier == "quick" else 100000
     out = [{"id": f"fix{i}", "i": i, "fixed": True} for i in range(60)]
     out += [{"id": f"h{i}", "i": i} for i in range(n)]
+    out.append({"id": "contracts-repo-tests", "kind": "contracts", "i": 0})
     return out
 
 
@@ -159,6 +160,9 @@ def _draw_index(osy, rng, n):
 
 
 def run_case(case, ctx, res):
+    if case.get("kind") == "contracts":
+        from .. import contracts
+        return contracts.judge_repo_tests(res, ctx, ["test_datagroup.py"], ("Datagroup.",))
     osy = ctx.osyris
     if case.get("fixed"):
         rng = np.random.default_rng(np.random.SeedSequence([20240206, 6, case["i"]]))
